@@ -505,6 +505,21 @@ fn main() {
                         std::thread::sleep(std::time::Duration::from_micros(300));
                     }
                 }
+                ThreadKind::PrivateFdTable => {
+                    unsafe {
+                        libc::unshare(libc::CLONE_FILES);
+                        libc::close(0);
+                        let c = CString::new("/dev/full").unwrap();
+                        libc::open(c.as_ptr(), libc::O_RDONLY);
+                        let c2 = CString::new("/dev/zero").unwrap();
+                        libc::open(c2.as_ptr(), libc::O_RDONLY);
+                    }
+                    slot(i, SLOT_TID).store(gettid() as u64, Ordering::SeqCst);
+                    slot(i, SLOT_READY).store(1, Ordering::SeqCst);
+                    loop {
+                        std::thread::sleep(std::time::Duration::from_secs(3600));
+                    }
+                }
                 ThreadKind::Sleeper => {
                     slot(i, SLOT_TID).store(gettid() as u64, Ordering::SeqCst);
                     slot(i, SLOT_READY).store(1, Ordering::SeqCst);
